@@ -226,6 +226,21 @@ func runC03(rc *fw.RunCtx) {
 			"import badcompile",
 		}[g.Intn(4)] + "\n"
 	}
+	// modules that import fine, for goroutines that linger after the evaluation
+	// has returned and import them while the host already runs the next
+	// evaluation on the same VM (and for several goroutines importing different
+	// modules through one importer at the same time)
+	for i := 0; i < 6; i++ {
+		sfs.Files[fmt.Sprintf("okmod%d.risor", i)] = fmt.Sprintf("v := %d\nfunc get() { return v }\n", i)
+	}
+	if g.Chance(1, 3) {
+		rc.Hit("shape_lingering_importers")
+		var b strings.Builder
+		for i, n := 0, g.Range(2, 6); i < n; i++ {
+			fmt.Fprintf(&b, "go func() { for j := 0; j < %d; j++ { tick() }; import okmod%d; tick(); okmod%d.get() }()\n", g.Intn(120), i, i)
+		}
+		src = b.String() + src
+	}
 	var imp importer.Importer
 	if g.Chance(1, 2) {
 		imp = importer.NewFSImporter(importer.FSImporterOptions{GlobalNames: cfgNames, SourceFS: sfs, Extensions: []string{".risor", ".rsr"}})
